@@ -268,7 +268,8 @@ where
     }
 
     fn get_char_list_len(&self, addr: Self::Size) -> Result<Self::Size, Self::Error> {
-        Ok(self.get(addr)?.as_char_list()?.len())
+        // length in characters, which is what get_char_list_item indexes by, not in bytes of the UTF-8 encoding
+        Ok(self.get(addr)?.as_char_list()?.chars().count())
     }
 
     fn get_char_list_item(&self, addr: Self::Size, item_index: Self::Number) -> Result<Option<Self::Char>, Self::Error> {
